@@ -79,7 +79,11 @@ void err(bool errno_valid, const char *fmt, ...)
 
 void lsd_fatal_error(char *file, int line, char *mesg)
 {
-    err_exit(true, "%s", mesg);
+    /* Reached from liblsd when it rejects input (e.g. hostlist range parse
+     * errors).  The liblsd caller gets an error return and handles it, so
+     * report and carry on rather than terminating the process.
+     */
+    err(false, "%s", mesg);
 }
 
 void *lsd_nomem_error(char *file, int line, char *mesg)
